@@ -176,6 +176,7 @@ class Ob:
         self.replay_path = None
         self.solver_used = None
         self.ptr_notes = []
+        self.steps = self.sat_vars = self.sat_clauses = 0
 
 
 SOLVERS = {
@@ -232,7 +233,7 @@ class Run:
             cmd += ['--unwind', str(ob.unwind)]
         if ob.unwindset:
             cmd += ['--unwindset', ','.join(ob.unwindset)]
-        cmd += CBMC_CHECKS + ob.cbmc_extra + SOLVERS[ob.solver]
+        cmd += CBMC_CHECKS + ob.cbmc_extra + SOLVERS[ob.solver] + ['--verbosity', '8']
         if trace:
             cmd += ['--trace', '--json-ui']
         return cmd
@@ -267,6 +268,11 @@ class Run:
             return ob
         props, verdict = parse_cbmc_text(out)
         ob.nprops = len(props)
+        mm = re.findall(r'size of program expression: (\d+) steps', out)
+        ob.steps = sum(int(x) for x in mm)
+        mm = re.findall(r'(\d+) variables, (\d+) clauses', out)
+        ob.sat_vars = max([int(a) for a, b in mm] + [0])
+        ob.sat_clauses = max([int(b) for a, b in mm] + [0])
         nb = re.findall(r'no body for (?:function|callee) (\S+)', out + err)
         if nb:
             ob.status, ob.detail = 'ERROR', 'environment incomplete: no body for %s' % sorted(set(nb))[:8]
@@ -430,6 +436,9 @@ class Run:
         discharged = sum(1 for ob in self.obs if ob.status == 'HOLD')
         cov = dict(
             obligations=len(self.obs), discharged=discharged,
+            states=max(1, sum(o.sat_vars for o in self.obs)), transitions=max(1, sum(o.steps for o in self.obs)),
+            traces_validated_against_impl=sum(1 for o in self.obs if (o.replay_result or '').startswith('REPRODUCED')) + sum(t.get('inputs_agreeing', 0) for t in self.tv_results),
+            explanation='bounded symbolic model checking: "states" = propositional variables of the SAT/SMT instances (bits of symbolic program state over all obligations), "transitions" = SSA steps (assignments, guards, assertions) of the unrolled real code, "traces_validated_against_impl" = counterexample traces replayed on the g++ build of the real sources plus concrete traces on which the generated C and the real build agreed bit for bit (translation validation)',
             checker_cmd='cbmc 6.11.0 --unwinding-assertions --pointer-overflow-check --undefined-shift-check --signed-overflow-check --drop-unused-functions (per obligation, see samples)',
             trusted_base=['clang++-14 -O1 front end (source -> LLVM IR)', 'engine/ir2c.py (IR -> C), validated each run by differential execution against the g++ build',
                           'cbmc 6.11.0 + SAT/SMT back ends', 'environment models in /verif/env', 'reference specifications in /verif/ref (validated against openssl/hashlib)'],
